@@ -399,11 +399,27 @@ package desync
 //@ ghost var $regen bool
 //# a segment of an index with offsets and sizes below 2^62 (conversions to int64 are exact)
 //@ spec func segOK(g IndexSegment) bool = 0 <= g.first && g.first <= g.last && g.last < len(g.index.Chunks) && offsetsBounded(g.index.Chunks)
+//# the clone probe works on two temporary files of its own (made by ioutil.TempFile next to the two paths and removed
+//# again); it is a unit of its own so that AssembleFile's clauses about the target are not asked of the probe's files
+//@ func CanClone
+//@   prop C08
+//@   safety none
+//@   oncall Remove: requires @C08 $arg0 != dstFile && $arg0 != srcFile ==> true
+//@   ensures true
+
+//# the null-chunk seed's block file is a temporary file of its own (ioutil.TempFile in newNullChunkSeed); closing the
+//# seed removes that file and nothing else
+//@ func (s *nullChunkSeed) close
+//@   prop C08
+//@   safety none
+//@   oncall Remove: requires @C08 $arg0 == fname(s.blockfile)
+//@   ensures true
+
 //@ ghost var $tfit bool
 //@ ghost var $tseen bool
 //@ ghost var $verr error
 //@ func AssembleFile
-//@   prop C07 C01
+//@   prop C07 C01 C08
 //@   safety none
 //# C01, worker: a segment copied or cloned from a seed is recorded as written only after every chunk of it
 //# was read back from the target and its digest compared with the chunk's ID; a mismatch ends the worker
@@ -445,6 +461,14 @@ package desync
 //@   ghost@entry $verr = nil
 //@   ghost@after:Validate $verr = $r0
 //@   oncall Rewind: requires @C01,C07 $verr != nil && !is($verr, Interrupted)
+//# a failed validation that is not followed by a new plan ends the function with an error (in particular the
+//# Interrupted of a cancelled validation and the bail-out action never turn into a success)
+//@   ensures @C01,C07 $verr != nil ==> r1 != nil
+//# C08 (resume): whatever happens, AssembleFile does not remove or rename the target it was given - a partly populated
+//# target of a run that failed or was interrupted stays, so that a re-run in place finds what was already written
+//@   oncall Remove: requires @C08 $arg0 != name
+//@   oncall RemoveAll: requires @C08 $arg0 != name
+//@   oncall Rename: requires @C08 $arg0 != name && $arg1 != name
 
 //@ ghost var $invalidated bool
 //@ func (p Plan) Validate
